@@ -481,7 +481,14 @@ pub fn plan(property: &str, tier: Tier) -> Option<Plan>
                 c.sym_actors = vec![];
                 items.push(item(c, "app-reactors", &format!("N={n}")));
             }
-            reports = vec!["C13"];
+            // one-off reactors of one closure type: each registration runs on its own state (a run attributed to a
+            // reactor that has already run, or state that is never dropped, is state shared between registrations)
+            let ds: &[u32] = if q { &[4] } else { &[4, 5] };
+            for &d in ds
+            {
+                items.push(item(life_cfg(format!("C13/once-state/D{d}"), false, d), "once-state", &format!("D={d}")));
+            }
+            reports = vec!["C13", "C15"];
             rule = "runner-core programs over three registrations of the same closure type (and exclusive / erring \
                 variants): at every run the Local counter and the captured counter equal the number of earlier runs of \
                 that registration".into();
@@ -914,6 +921,36 @@ pub fn plan(property: &str, tier: Tier) -> Option<Plan>
                 c.max_runs = 400;
                 c.sym_actors = vec![];
                 items.push(item(c, "variants", &format!("N={n}")));
+            }
+            // one-off reactors among the readers of an event (their wrapper runs the reader and then cleans itself up)
+            let ns: &[u32] = if q { &[3] } else { &[3, 4, 5] };
+            for &n in ns
+            {
+                let mut c = Config::base(&format!("C05/once/N{n}"));
+                c.actors = vec![Variant::Plain, Variant::Plain];
+                c.n_ents = 1;
+                c.setup = vec![
+                    Op::Once(Variant::Plain, Bundle::two(Trig::Broadcast(Ev::A), Trig::EntityEvent(Ev::A, 0))),
+                    Op::Register(1, Bundle::two(Trig::Broadcast(Ev::A), Trig::EntityEvent(Ev::A, 0)), Mode::Persistent),
+                ];
+                let alpha: AlphabetFn = Arc::new(|i: &DynInfo| {
+                    let mut v = vec![Op::Broadcast(Ev::A), Op::EntityEvent(Ev::A, 0), Op::SysEvent(1)];
+                    if i.n_actors < 5
+                    {
+                        v.push(Op::Once(Variant::Plain, Bundle::one(Trig::Broadcast(Ev::A))));
+                        v.push(Op::Once(Variant::Plain, Bundle::one(Trig::AnyEntityEvent(Ev::A))));
+                    }
+                    v
+                });
+                c.script = alpha.clone();
+                c.top = alpha;
+                c.max_top = 3;
+                c.budget = n;
+                c.max_per_run = 2;
+                c.max_runs = 300;
+                c.sym_actors = vec![];
+                c.final_gc = true;
+                items.push(item(c, "once", &format!("N={n}")));
             }
             // reactions of other kinds (insertion / mutation / resource) nested between the readers of one event
             let ns: &[u32] = if q { &[3, 4, 5] } else { &[3, 4, 5, 6] };
